@@ -83,7 +83,7 @@ def run(tier):
     chk = Check(PROP, tier)
     lean_ok = lean_gate(chk, THEOREMS)
     quick = tier == "quick"
-    n_gen = 48 if quick else 600
+    n_gen = 140 if quick else 900
     nmax = 3
     cases = pipeline.load_corpus(PROP) + pipeline.generate_cases(n_gen, f"{PROP}-{tier}")
     jobs = []
